@@ -152,25 +152,37 @@ type gatedStore struct {
 	g  *gate
 }
 
-func (w *gatedStore) Set(k string, v any, ttl time.Duration) error { w.g.enter(); return w.in.Set(k, v, ttl) }
-func (w *gatedStore) Get(k string) (any, error)                     { w.g.enter(); return w.in.Get(k) }
-func (w *gatedStore) Delete(k string) error                         { w.g.enter(); return w.in.Delete(k) }
-func (w *gatedStore) Exists(k string) (bool, error)                 { w.g.enter(); return w.in.Exists(k) }
+func (w *gatedStore) Set(k string, v any, ttl time.Duration) error {
+	w.g.enter()
+	return w.in.Set(k, v, ttl)
+}
+func (w *gatedStore) Get(k string) (any, error)     { w.g.enter(); return w.in.Get(k) }
+func (w *gatedStore) Delete(k string) error         { w.g.enter(); return w.in.Delete(k) }
+func (w *gatedStore) Exists(k string) (bool, error) { w.g.enter(); return w.in.Exists(k) }
 func (w *gatedStore) SetExpiration(k string, ttl time.Duration) error {
 	w.g.enter()
 	return w.in.SetExpiration(k, ttl)
 }
-func (w *gatedStore) GetExpiration(k string) (time.Duration, error) { w.g.enter(); return w.in.GetExpiration(k) }
-func (w *gatedStore) CleanupExpired() error                         { return nil }
-func (w *gatedStore) Close() error                                  { return nil }
-func (w *gatedStore) ls() storage.ListStore                         { return w.in.(storage.ListStore) }
+func (w *gatedStore) GetExpiration(k string) (time.Duration, error) {
+	w.g.enter()
+	return w.in.GetExpiration(k)
+}
+func (w *gatedStore) CleanupExpired() error { return nil }
+func (w *gatedStore) Close() error          { return nil }
+func (w *gatedStore) ls() storage.ListStore { return w.in.(storage.ListStore) }
 func (w *gatedStore) SetList(k string, v []any, ttl time.Duration) error {
 	w.g.enter()
 	return w.ls().SetList(k, v, ttl)
 }
-func (w *gatedStore) GetList(k string) ([]any, error)      { w.g.enter(); return w.ls().GetList(k) }
-func (w *gatedStore) AppendToList(k string, v any) error   { w.g.enter(); return w.ls().AppendToList(k, v) }
-func (w *gatedStore) RemoveFromList(k string, v any) error { w.g.enter(); return w.ls().RemoveFromList(k, v) }
+func (w *gatedStore) GetList(k string) ([]any, error) { w.g.enter(); return w.ls().GetList(k) }
+func (w *gatedStore) AppendToList(k string, v any) error {
+	w.g.enter()
+	return w.ls().AppendToList(k, v)
+}
+func (w *gatedStore) RemoveFromList(k string, v any) error {
+	w.g.enter()
+	return w.ls().RemoveFromList(k, v)
+}
 
 type prefixQuerier interface {
 	QueryByPrefix(prefix string, limit int) (map[string]string, error)
@@ -342,8 +354,12 @@ func (e *ctrlEnv) items() []string {
 	}
 	return r
 }
-func (e *ctrlEnv) digest() string { it := e.items(); sort.Strings(it); return fmt.Sprint(it, e.occupancy()) }
-func (e *ctrlEnv) close()         { e.sm.Close(); e.cancel() }
+func (e *ctrlEnv) digest() string {
+	it := e.items()
+	sort.Strings(it)
+	return fmt.Sprint(it, e.occupancy())
+}
+func (e *ctrlEnv) close() { e.sm.Close(); e.cancel() }
 
 // ---- tun
 
@@ -405,7 +421,7 @@ type fakeClient struct {
 	quota   int
 	mu      sync.Mutex
 	dialed  map[uint64]net.Conn // calling goroutine -> far end of the tunnel pipe it was given
-	inside  atomic.Int32 // handlers currently between admission and the end of DialTunnel
+	inside  atomic.Int32        // handlers currently between admission and the end of DialTunnel
 	maxIn   atomic.Int32
 	hold    chan struct{} // free-running mode: DialTunnel waits here
 	arrived chan struct{}
@@ -669,9 +685,13 @@ func (s *gatedMapSvc) CreatePortMapping(m *models.PortMapping) (*models.PortMapp
 	s.g.enter()
 	return s.in.CreatePortMapping(m)
 }
-func (s *gatedMapSvc) GetPortMapping(id string) (*models.PortMapping, error) { return s.in.GetPortMapping(id) }
-func (s *gatedMapSvc) UpdatePortMapping(m *models.PortMapping) error         { return s.in.UpdatePortMapping(m) }
-func (s *gatedMapSvc) DeletePortMapping(id string) error                     { return s.in.DeletePortMapping(id) }
+func (s *gatedMapSvc) GetPortMapping(id string) (*models.PortMapping, error) {
+	return s.in.GetPortMapping(id)
+}
+func (s *gatedMapSvc) UpdatePortMapping(m *models.PortMapping) error {
+	return s.in.UpdatePortMapping(m)
+}
+func (s *gatedMapSvc) DeletePortMapping(id string) error { return s.in.DeletePortMapping(id) }
 func (s *gatedMapSvc) UpdatePortMappingStats(id string, st interface{}) error {
 	return nil
 }
@@ -818,6 +838,7 @@ type kase struct {
 	limit   int
 	pre     int
 	n       int
+	iters   int
 	threads []*thread
 	sched   []int
 }
@@ -872,7 +893,12 @@ func parseCase(s string) (*kase, bool) {
 	if k.free {
 		t.want("n")
 		k.n = t.num()
-		if t.e || t.i != len(t.t) || k.n > 64 || k.pre > 4096 {
+		k.iters = 1
+		if t.i < len(t.t) {
+			t.want("it")
+			k.iters = t.num()
+		}
+		if t.e || t.i != len(t.t) || k.n > 64 || k.pre > 4096 || k.iters < 1 || k.iters > 100000 {
 			return nil, false
 		}
 	} else {
@@ -1136,16 +1162,33 @@ func execCase(cs string) (obs string) {
 // n requests are released by one barrier and run without gates; none is released before all
 // are decided.  For `map`/`mapu` every admitted handler is held inside DialTunnel until all n
 // requests are either refused or inside, so `max` is the number admitted simultaneously.
-func execFree(k *kase) (obs string) {
+// With `it <k>` the round is repeated k times on fresh state and the round that admitted most is
+// reported (on code that keeps the limit every round gives the same answer).
+func execFree(k *kase) string {
+	for i := 0; i < k.n; i++ {
+		k.threads = append(k.threads, &thread{tid: i, inst: 0, bypass: true})
+	}
+	best, bestAdm := "", -1
+	for it := 0; it < k.iters; it++ {
+		o := execFreeRound(k)
+		var a int
+		if _, err := fmt.Sscanf(o, "adm %d", &a); err != nil {
+			return o // timeout, panic, errors: reported as they are
+		}
+		if a > bestAdm {
+			best, bestAdm = o, a
+		}
+	}
+	return best
+}
+
+func execFreeRound(k *kase) (obs string) {
 	defer func() {
 		if r := recover(); r != nil {
 			obs = "panic " + strings.ReplaceAll(fmt.Sprint(r), "\n", " ")
 		}
 	}()
 	g := newGate()
-	for i := 0; i < k.n; i++ {
-		k.threads = append(k.threads, &thread{tid: i, inst: 0, bypass: true})
-	}
 	e := newEnv(k, g)
 	if err := e.setup(); err != nil {
 		e.close()
@@ -1160,8 +1203,7 @@ func execFree(k *kase) (obs string) {
 		me.cl.arrived = make(chan struct{}, k.n)
 	}
 	d0 := e.digest()
-	var start sync.WaitGroup
-	start.Add(1)
+	var start atomic.Bool // spin barrier: the requests leave it within nanoseconds of each other
 	var adm, ref, errs atomic.Int32
 	var dirty atomic.Bool
 	results := make(chan int, k.n)
@@ -1174,7 +1216,9 @@ func execFree(k *kase) (obs string) {
 					results <- 2
 				}
 			}()
-			start.Wait()
+			for !start.Load() {
+				runtime.Gosched()
+			}
 			ok, et := e.admit(th, fmt.Sprintf("t%d_0", th.tid))
 			switch {
 			case et != "":
@@ -1189,7 +1233,8 @@ func execFree(k *kase) (obs string) {
 			}
 		}()
 	}
-	start.Done()
+	time.Sleep(200 * time.Microsecond) // let every request reach the barrier
+	start.Store(true)
 	decided, maxSeen := 0, 0
 	deadline := time.After(10 * time.Second)
 	sample := func() {
